@@ -89,7 +89,7 @@ func runCounterCase(cs *Case, size int) {
 	fail := func(class, detail string) {
 		c := *cs
 		c.Ops = append([]Op(nil), cs.Ops...) // the enumerator reuses the slice
-		rep.FailLazy(class, size, func() engine.Failure {
+		recordFailure(class, size, func() engine.Failure {
 			return engine.Failure{Detail: fmt.Sprintf("start=%s history=%s wire-round-trip-after-op=%d: %s", c.Start, opsString(c.Ops), c.RT, detail), Case: c}
 		})
 	}
@@ -242,7 +242,7 @@ func opsString(ops []Op) string {
 }
 
 // counterPart enumerates every history of depth 0..D x every start x every round-trip place.
-func counterPart(D int) {
+func counterPart(D int, allRT bool) {
 	type item struct {
 		start, d, lo, hi int
 	}
@@ -271,6 +271,9 @@ func counterPart(D int) {
 				x /= nCtrOps
 			}
 			for rt := 0; rt <= it.d; rt++ {
+				if rt > 0 && !allRT && ctrStarts[it.start] != "fresh" {
+					break // quick: the round trip at every place only from the fresh section
+				}
 				cs := Case{Part: "counter", Start: ctrStarts[it.start], Ops: ops, RT: rt}
 				size := ((it.d*8+rt)*4+it.start)*800000 + seq
 				runCounterCase(&cs, size)
@@ -278,4 +281,5 @@ func counterPart(D int) {
 		}
 	})
 	rep.Extra("counter_history_depth", D)
+	rep.Extra("counter_round_trip_at_every_place_from_every_start", allRT)
 }
